@@ -191,17 +191,15 @@ func vfStack() string {
 // (non-harness) code above the harness frames, i.e. the panic was raised inside netpoll.
 func vfPanicSite(stack string) string {
 	lines := strings.Split(stack, "\n")
-	for i := 0; i+1 < len(lines); i++ {
-		l := lines[i]
-		if strings.HasPrefix(l, "panic(") || strings.HasPrefix(l, "runtime.") || strings.HasPrefix(l, "goroutine ") || l == "" {
-			continue
+	// the frame below "panic(...)" is where the panic was raised
+	for i := 0; i+3 < len(lines); i++ {
+		if strings.HasPrefix(lines[i], "panic(") {
+			for j := i + 2; j+1 < len(lines); j += 2 {
+				if !strings.HasPrefix(lines[j], "runtime.") {
+					return lines[j] + " @ " + strings.TrimSpace(lines[j+1])
+				}
+			}
 		}
-		if strings.HasPrefix(l, "\t") {
-			continue
-		}
-		// first non-runtime function frame
-		loc := strings.TrimSpace(lines[i+1])
-		return l + " @ " + loc
 	}
 	return ""
 }
